@@ -31,4 +31,10 @@ def badVersionPsd : B :=
 def shortPascalPsd : B :=
   headerBytes ++ [0, 0, 0, 0] ++ [0, 0, 0, 8, 0x38, 0x42, 0x49, 0x4d, 0, 1, 9, 0] ++ [0, 0, 0, 0] ++ [0, 0, 7]
 
+/-- a PSB whose layer-and-mask section declares `2^63` bytes (an empty layer info, an empty global mask
+inside): `fp.seek(end_pos)` raises `OverflowError` -/
+def overflowPsd : B :=
+  [0x38, 0x42, 0x50, 0x53, 0, 2, 0, 0, 0, 0, 0, 0, 0, 1, 0, 0, 0, 1, 0, 0, 0, 1, 0, 8, 0, 3] ++
+  [0, 0, 0, 0] ++ [0, 0, 0, 0] ++ [0x80, 0, 0, 0, 0, 0, 0, 0] ++ [0, 0, 0, 0, 0, 0, 0, 0] ++ [0, 0, 0, 0]
+
 end PsdVerif.Safe
